@@ -900,6 +900,11 @@ func runC02(e *Env) error {
 		e.Res.Violate(kind, sig, what, chk, rep)
 		mu.Unlock()
 	}, &mu)
+	c02Predicates(e, func(kind, sig, what, chk string, rep any) {
+		mu.Lock()
+		e.Res.Violate(kind, sig, what, chk, rep)
+		mu.Unlock()
+	}, &mu)
 	c02Skip(e, pool, func(kind, sig, what, chk string, rep any) {
 		mu.Lock()
 		e.Res.Violate(kind, sig, what, chk, rep)
